@@ -77,6 +77,7 @@ type vNet struct {
 	seen  map[string]bool
 	row   *vNetRow
 	pubs  []map[string]string // per node: digest -> hex body of the VAA it broadcast
+	got   []map[string]bool   // per node: wire items delivered to it so far
 }
 
 func vHas(outs []string, prefix string) bool {
@@ -148,6 +149,9 @@ func (nt *vNet) add(it *vNetItem) {
 
 // deliver an item to node j ("dlv": really emitted by a node; "adv": made by the adversary)
 func (nt *vNet) deliver(kind string, j int, it *vNetItem, note string) bool {
+	if kind == "dlv" {
+		nt.got[j][it.key()] = true
+	}
 	if it.obs != nil {
 		return nt.step(kind, j, func(dr *vDriver) bool { return dr.opObs(it.obs, note) })
 	}
@@ -285,6 +289,7 @@ func vNetRound(t *testing.T, ctx context.Context, w *vWorld, id int) *vNetRow {
 		nt.nodes = append(nt.nodes, vNewDriver(t, ctx, key, w.govCh, w.govAddr, id*10+i))
 		nt.row.Owns = append(nt.row.Owns, hex.EncodeToString(crypto.PubkeyToAddress(key.PublicKey).Bytes()))
 		nt.pubs = append(nt.pubs, map[string]string{})
+		nt.got = append(nt.got, map[string]bool{})
 	}
 	outsider := w.keys[base+n+3]
 	// the set in force: the n nodes plus `extra` guardians that are not run here (silent / byzantine), in a random order
@@ -397,7 +402,8 @@ func vNetRound(t *testing.T, ctx context.Context, w *vWorld, id int) *vNetRow {
 				if !alive {
 					break
 				}
-				if nt.pool[x].obs != nil || r.chance(1, 2) {
+				// an observation travels to a node at least once in the round (not again if it got there already); VAAs travel at random
+				if (nt.pool[x].obs != nil && !nt.got[i][nt.pool[x].key()]) || (nt.pool[x].obs == nil && r.chance(1, 2)) {
 					do(nt.deliver("dlv", i, nt.pool[x], "closure"))
 				}
 			}
